@@ -117,6 +117,9 @@ type Override struct {
 	Status     *p9.LockStatus
 	IoUnit     *uint32
 	HasDirents bool
+	// EOF: ReadAt returns its (non-empty) data TOGETHER with io.EOF, as
+	// io.ReaderAt allows and os.File does at the end of a file.
+	EOF bool
 }
 
 // Gate blocks a call inside the backend until opened.
@@ -814,6 +817,10 @@ func (h *Handle) ReadAt(p []byte, offset int64) (int, error) {
 	if a != nil && a.Override != nil && a.Override.Data != nil {
 		k := copy(p, a.Override.Data)
 		c.Result = []interface{}{k}
+		if a.Override.EOF && k > 0 {
+			c.Err = io.EOF
+			return k, io.EOF
+		}
 		return k, nil
 	}
 	if n.IsDir() {
@@ -829,6 +836,10 @@ func (h *Handle) ReadAt(p []byte, offset int64) (int, error) {
 		k = *a.Override.N
 	}
 	c.Result = []interface{}{k}
+	if a != nil && a.Override != nil && a.Override.EOF && k > 0 && offset+int64(k) >= int64(len(n.Data)) {
+		c.Err = io.EOF
+		return k, io.EOF
+	}
 	return k, nil
 }
 
